@@ -93,7 +93,9 @@ InitCalls == SetToSeq({[fn |-> "init-new", kind |-> k, nilconf |-> n, a |-> a, b
              \o SetToSeq({[fn |-> "init-init", kind |-> k, dims |-> d] :
                  k \in {"full", "uniform", "normal", "he-uniform", "he-normal", "xavier-uniform", "xavier-normal"}, d \in IntSeqs2 \cup {NilV, <<2, 1, 2>>, <<2, 0, 2>>, <<2, 2, -1>>}})
 
-AllCalls == CtorCalls \o TensorOfCalls \o SetToSeq(AtCalls) \o SetToSeq(DimCalls) \o SetToSeq(ShapeCalls) \o SetToSeq(NoArgCalls)
+ConfCalls == SetToSeq({[fn |-> "ctor-conf", ctor |-> k, device |-> d, track |-> t] :
+                          k \in {"full", "zeros", "ones", "eye", "randu", "randn", "tensorof"}, d \in {-1, 0, 1, 2, 6}, t \in BOOLEAN})
+AllCalls == ConfCalls \o CtorCalls \o TensorOfCalls \o SetToSeq(AtCalls) \o SetToSeq(DimCalls) \o SetToSeq(ShapeCalls) \o SetToSeq(NoArgCalls)
             \o SetToSeq(SliceCalls) \o SetToSeq(PatchCalls) \o SetToSeq(BinCalls) \o SetToSeq(ConcatCalls) \o SetToSeq(MiscCalls)
             \o SetToSeq(FCNew) \o SetToSeq(FCFwd) \o ActFwd \o LossCalls \o InitCalls
 Mine2 == MyCases(AllCalls)
